@@ -139,10 +139,10 @@ theorem SegTrace.frame {S : Scheduler ﾏマ {me : Nat} {st : ExecState P ﾏマ {p : 
   induction h with
   | fuel st p => exact SegFrame.setConts me st me p
   | ret st => exact SegFrame.setConts me st me _
-  | retPanicking st msg _ => exact SegFrame.refl me st
-  | abort st msg _ => exact SegFrame.refl me st
-  | unwind st msg e _ _ ih =>
-    have h0 : SegFrame me st { st with k := { st.k with panicking := some (me, msg) } } :=
+  | retPanicking st msg => exact SegFrame.refl me st
+  | abort st msg => exact SegFrame.refl me st
+  | unwind st msg pk apk e _ ih =>
+    have h0 : SegFrame me st { st with k := { st.k with panicking := pk, alsoPanicking := apk } } :=
       筺ｨrfl, rfl, rfl, rfl, rfl, Nat.le_refl _, fun _ h => h, Nat.le_refl _, fun h => h, fun h => h筺ｩ
     exact h0.trans ih
   | halt o kont st e hh => exact hh.frame
@@ -205,10 +205,11 @@ theorem SegTrace.log {S : Scheduler ﾏマ {me : Nat} {st : ExecState P ﾏマ {p : Pr
   induction h with
   | fuel st p => exact Or.inl (SegLog.of_eq rfl rfl)
   | ret st => exact Or.inl (SegLog.of_eq rfl rfl)
-  | retPanicking st msg _ => exact Or.inl (SegLog.refl st)
-  | abort st msg _ => exact Or.inl (SegLog.refl st)
-  | unwind st msg e _ _ ih =>
-    have h0 : SegLog [] st { st with k := { st.k with panicking := some (me, msg) } } := SegLog.of_eq rfl rfl
+  | retPanicking st msg => exact Or.inl (SegLog.refl st)
+  | abort st msg => exact Or.inl (SegLog.refl st)
+  | unwind st msg pk apk e _ ih =>
+    have h0 : SegLog [] st { st with k := { st.k with panicking := pk, alsoPanicking := apk } } :=
+      SegLog.of_eq rfl rfl
     rcases ih with ih | 筺ｨm, st'', he, ih筺ｩ
     ﾂｷ exact Or.inl (h0.trans ih)
     ﾂｷ exact Or.inr 筺ｨm, st'', he, h0.trans ih筺ｩ
@@ -289,9 +290,9 @@ theorem SegTrace.hasYielded_eq {S : Scheduler ﾏマ {me : Nat} {st : ExecState P ﾏ
   induction h with
   | fuel st p => rfl
   | ret st => rfl
-  | retPanicking st msg _ => rfl
-  | abort st msg _ => rfl
-  | unwind st msg e _ _ ih => exact ih (hu me)
+  | retPanicking st msg => rfl
+  | abort st msg => rfl
+  | unwind st msg pk apk e _ ih => exact ih (hu me)
   | halt o kont st e hh => exact hh.kernel_eq.1
   | step o kont st st' b e hs _ ih =>
     cases hp with
@@ -308,9 +309,9 @@ theorem SegTrace.stepsResetAt_eq {S : Scheduler ﾏマ {me : Nat} {st : ExecState P
   induction h with
   | fuel st p => rfl
   | ret st => rfl
-  | retPanicking st msg _ => rfl
-  | abort st msg _ => rfl
-  | unwind st msg e _ _ ih => exact ih (hu me)
+  | retPanicking st msg => rfl
+  | abort st msg => rfl
+  | unwind st msg pk apk e _ ih => exact ih (hu me)
   | halt o kont st e hh => exact hh.kernel_eq.2
   | step o kont st st' b e hs _ ih =>
     cases hp with
@@ -347,9 +348,9 @@ theorem SegTrace.never_conts {S : Scheduler ﾏマ {me : Nat} {st : ExecState P ﾏマ
     rcases mem_set_elim hq with h | h
     ﾂｷ exact hc q h
     ﾂｷ rw [h]; exact Never.pure
-  | retPanicking st msg _ => exact hc
-  | abort st msg _ => exact hc
-  | unwind st msg e _ _ ih => exact ih (hu me) hc
+  | retPanicking st msg => exact hc
+  | abort st msg => exact hc
+  | unwind st msg pk apk e _ ih => exact ih (hu me) hc
   | halt o kont st e hh =>
     cases hh with
     | switch _ _ =>
